@@ -13,8 +13,8 @@ from vlib import Check, tlc, harness, OUT
 C06 = {"handler-invoked-twice", "handler-invoked-for-flush", "duplicate-dispatched", "handler-got-different-message",
        "handler-got-unknown-message", "reply-from-nowhere", "second-reply", "reply-for-wrong-request",
        "reply-before-handler-returned", "result-kind-changed", "unexpected-duptag-error", "malformed-reply",
-       "request-unanswered", "duplicate-unanswered", "flushed-reply-answers-new-request"}
-C07 = {"reply-after-flush-ack", "flushed-reply-answers-new-request", "rflush-before-cancel", "unexpected-flush-reply", "flush-unanswered",
+       "request-unanswered", "duplicate-unanswered", "flushed-reply-answers-new-request", "request-on-reused-tag-unanswered"}
+C07 = {"reply-after-flush-ack", "flushed-reply-answers-new-request", "request-on-reused-tag-unanswered", "rflush-before-cancel", "unexpected-flush-reply", "flush-unanswered",
        "reply-for-wrong-request", "second-reply"}
 C11 = {"stop-called-twice", "stop-not-called-once", "inflight-not-cancelled"}
 
@@ -101,6 +101,8 @@ def validate_traces(ck, trace_path, classes, runs):
     if not r.ok:
         raise vlib.Inconclusive("trace validation failed (%s):\n%s" % (r.violation, r.out[-3000:]))
     for v in r.printed:
+        if not v.get("bad"):
+            continue
         evs = [json.loads(x) for x in traces.get(v["tr"], [])]
         name = runs.get(str(v.get("sc", 0)), "?")
         if v["bad"] in classes:
@@ -141,6 +143,16 @@ def _run(pid, tier, classes, families, extra=None):
         sc, rr = cex_scenario("ServeImpl_asis_fwd.cfg", "tlc-cex-forward-after-close", rep)
         scs.append(sc)
         ck.cov["tlc_runs"].append({"cfg": "ServeImpl_asis_fwd.cfg", "expected_violation": rr.violation})
+    if "goals" in families:
+        # model-based test generation: TLC refutes "this situation is never reached"; the behaviour found is the scenario
+        sc, rr = cex_scenario("ServeImpl_goal_stalefault.cfg", "tlc-goal-stale-completion-then-fault", rep // 2)
+        ck.cov["tlc_runs"].append({"cfg": "ServeImpl_goal_stalefault.cfg", "goal_reached_via": rr.violation})
+        for fk in ("read-eof", "read-err"):
+            sc2 = dict(sc, name=sc["name"] + ":" + fk, steps=sc["steps"] + [{"a": "pause"}, {"a": "fault", "kind": fk}])
+            scs.append(sc2)
+        sc, rr = cex_scenario("ServeImpl_goal_flushfault.cfg", "tlc-goal-flush-races-fault", rep // 2)
+        ck.cov["tlc_runs"].append({"cfg": "ServeImpl_goal_flushfault.cfg", "goal_reached_via": rr.violation})
+        scs.append(sc)
     if "nofault" in families:
         behs, _ = simulate("ServeSim_nofault.cfg", 120 if q else 1500, 45)
         scs += [behaviour_to_scenario("sim-nofault-%d" % i, b, 2 if q else 3) for i, b in enumerate(behs)]
@@ -221,4 +233,4 @@ def _stoprace(ck, tier):
 
 
 def c11(tier):
-    return _run("C11", tier, C11, ("fault", "fwd"), extra=_stoprace)
+    return _run("C11", tier, C11, ("fault", "fwd", "goals"), extra=_stoprace)
